@@ -7,7 +7,7 @@ from vf.tape import Fail, notrace
 
 PROPERTY = 'C08'
 NSS = ['/', '/a', '/b']
-NS_SETS = [['/'], ['/a'], ['/', '/a'], ['/a', '/'], ['/a', '/b']]
+NS_SETS = [['/'], ['/a'], ['/', '/a'], ['/a', '/'], ['/a', '/b'], None]      # None: connect() without namespaces
 
 
 def h(t, part):
@@ -42,8 +42,8 @@ def h(t, part):
                     def oe(self, *a, ns=ns):
                         rec('connect_error', ns, a)
                 w.c.register_namespace(type('N', (base,), {'on_connect': oc, 'on_disconnect': od, 'on_connect_error': oe})(ns))
-        else:
-            for ns in NSS:
+        if classns in (False, 'both'):
+            for ns in NSS + (['*'] if classns == 'both' else []):
                 for kind in ('connect', 'disconnect', 'connect_error'):
                     if asyncio_:
                         async def f(*a, kind=kind, ns=ns):
@@ -121,6 +121,9 @@ def h(t, part):
                 authk = t.choice(3)
             else:
                 nss, authk = NS_SETS[2], 0      # the attempt after a failed connect(wait=True)
+            default_nss = nss is None
+            if default_nss:
+                nss = list(NSS)         # every namespace that has handlers of either kind, each once; never '*'
             x = t.int(-2, 2)
             auth = [None, {'k': x}, (lambda: {'c': x})][authk]
             exp_auth = [{}, {'k': x}, {'c': x}][authk]
@@ -132,7 +135,7 @@ def h(t, part):
             w.take()
             ok = None
             try:
-                w.call(c.connect('http://h', namespaces=list(nss), auth=auth, wait=wait, wait_timeout=1))
+                w.call(c.connect('http://h', namespaces=None if default_nss else list(nss), auth=auth, wait=wait, wait_timeout=1))
                 ok = True
             except exceptions.ConnectionError:
                 ok = False
@@ -311,6 +314,10 @@ def parts(tier):
                     for f1 in range(3):
                         n = (2 if wt else 1) if tier == 'quick' else (3 if wt else 2)
                         out.append({'async': a, 'classns': cn, 'wait': wt, 'rounds': 2 if wt else 1, 'n': n, 'first': [f0, f1]})
+        # connect() without namespaces; function handlers, a class-based namespace and a catch-all registered for the same names
+        for wt in (True, False):
+            for f1 in range(3):
+                out.append({'async': a, 'classns': 'both', 'wait': wt, 'rounds': 2 if wt else 1, 'n': 1, 'first': [5, f1]})
     return out
 
 
@@ -318,7 +325,7 @@ CHECKS = [dict(name='client-life', fn=h, parts=parts, budget={'quick': 180, 'tho
 
 META = dict(
     explanation='Real Client/AsyncClient on the fake engine.io client with the harness as server: connect() with every '
-                'subset/order of two namespaces (and a pair of non-default ones), auth as nothing / value / callable, wait on and off, every pattern of '
+                'subset/order of two namespaces (and a pair of non-default ones; and without namespaces, with function handlers, class-based namespaces and a catch-all registered for the same three names), auth as nothing / value / callable, wait on and off, every pattern of '
                 'accept / refuse / silence per namespace; then a connected life (emit with and without callback on '
                 'connected and unconnected namespaces, the server ending one namespace, half a binary packet, '
                 'disconnect(), transport loss, server close); then a fresh connection into which a late ACK and a stray '
